@@ -25,7 +25,7 @@ impl ObsError {
         match self {
             ObsError::Lex { what, .. } => format!("unclosed:{}", what.replace(' ', "-")),
             ObsError::Balance(_) => "unbalanced".into(),
-            ObsError::Grammar { construct, .. } => format!("bad-decl:{}", construct.replace(' ', "-")),
+            ObsError::Grammar { construct, .. } => if construct.contains(':') { construct.clone() } else { format!("bad-decl:{}", construct.replace(' ', "-")) },
         }
     }
     pub fn show(&self) -> String {
